@@ -94,11 +94,13 @@ def c12(tier, seed):
 
 def c13(tier, seed):
     if tier == 'quick':
-        runs = [Run('e1_bfs', 'asan', ['api', '2'])]
+        runs = [Run('e1_bfs', 'asan', ['api', '2']), Run('e2_pairs', 'plain', [])]
     else:
         runs = [Run('e1_bfs', 'asan', ['api', '2']), Run('e1_bfs', 'plain', ['api', '3']), Run('e1_bfs', 'dbg', ['crypt']), Run('e1_bfs', 'dbg', ['api', '2'])]
         runs += [Run('e1_bfs', m, ['api', '2'], label='e1_bfs[%s] api 2 (compiler matrix)' % m) for m in ('gcc-O0', 'gcc-O3', 'gcc-Os', 'clang-O0', 'clang-O2', 'clang-O3')]
+        runs += [Run('e2_pairs', 'plain', []), Run('e2_pairs', 'asan', ['--tier', 'quick'], label='e2_pairs[asan] en+es')]
     return check('C13', tier, seed, runs, keyfilter=pref('c13:', 'c10:', 'c12:', 'c14:', 'c18:', 'harness:'), extra_cov=e1_cov, assumptions=ASSUME_COMMON + [
+        'e2_pairs: every ordered pair (A, B) of words of a language (quick: English and Spanish; thorough: the 8 sorted languages, 33.5 M pairs): a phrase ending in A is decoded, then a phrase beginning with B, whose result must be the reference seed whatever A was',
         'alphabet (closed, so the search reaches a fixpoint): create with 3 feature arguments, free, free(NULL), crypt with 2 passwords, store/load into an empty slot, encode/decode into an empty slot (en auto, ko coin 2047 explicit, zh_s auto), enable_features {0,1,7}, re-injection of two dependency tables (B: different random source and clock, libc time/malloc/free), arming an allocation fault; 2 seed slots (thorough: 3)',
         'state key = library writable sections + raw bytes of every live seed block + environment; a change that introduces hidden state only grows the state space'])
 
@@ -194,12 +196,12 @@ def c16(tier, seed):
     runs.append(Run('e1_bfs', 'asan', ['api', '2']))     # zero-at-free / memzero-before-free on every free of every reachable history
     def cov(results):
         return {'builds': modes, 'cells_reached_per_build': {res['_label']: res.get('cells_reached') for r, res in results if r.prog == 'e4_residue'},
-                'bytes_scanned': sum(res.get('bytes_scanned', 0) for r, res in results), 'cells_expected': 60}
+                'bytes_scanned': sum(res.get('bytes_scanned', 0) for r, res in results), 'cells_expected': 63}
     def post(results):
         out = []
         for r, res in results:
-            if r.prog == 'e4_residue' and res.get('cells_reached') is not None and res.get('cells_reached') != 60:
-                out.append({'key': 'harness:e4-cells:%s' % r.mode, 'replay': '', 'msg': '%s reached %s of 60 (function, exit) cells' % (res['_label'], res.get('cells_reached'))})
+            if r.prog == 'e4_residue' and res.get('cells_reached') is not None and res.get('cells_reached') != 63:
+                out.append({'key': 'harness:e4-cells:%s' % r.mode, 'replay': '', 'msg': '%s reached %s of 63 (function, exit) cells' % (res['_label'], res.get('cells_reached'))})
         return out
     return check('C16', tier, seed, runs, keyfilter=pref('c16:', 'harness:'), extra_cov=cov, post=post, assumptions=ASSUME_COMMON + [
         'what a given compiler leaves behind: the build matrix is the claim (quick: gcc -O2, -O0; thorough: gcc -O0..-Os, clang -O0/-O2/-O3), x86-64',
@@ -207,7 +209,7 @@ def c16(tier, seed):
         'single word indices (11 bits) are not searched, only adjacent pairs; secrets are searched as 8-byte windows'])
 
 def c20(tier, seed):
-    runs = [Run('e3_sched', 'tsanrt', ['only', str(h)], label='e3_sched[tsanrt] H%d' % h) for h in ((5, 3, 4, 2, 1) if tier == 'thorough' else (3, 4, 2, 1))]
+    runs = [Run('e3_sched', 'tsanrt', ['only', str(h)], label='e3_sched[tsanrt] H%d' % h) for h in ((5, 3, 4, 2, 1, 6) if tier == 'thorough' else (3, 4, 2, 1, 6))]
     runs.append(Run('e3_free', 'tsan', [], label='e3_free[tsan] free-running ThreadSanitizer pass'))
     def cov(results):
         c = {'e3': {}}
@@ -248,7 +250,7 @@ def setup():
 
 SETUP_PROGS = [('e2_phrase', ['asan']), ('e2_gf', ['plain', 'asan']), ('e2_kdf', ['plain', 'asan']), ('e2_coin', ['asan']),
                ('e2_storage', ['asan']), ('e2_words', ['asan']), ('e2_prefix', ['asan']), ('e2_birthday', ['asan']), ('e2_maxlen', ['asan']),
-               ('e1_bfs', ['asan']), ('e2_crypt', ['asan']), ('e2_tape', ['asan']), ('e2_fault', ['asan']), ('e2_detect', ['asan']), ('e2_strings', ['asan', 'dbg']), ('e4_residue', ['gcc-O2', 'gcc-O0']), ('e3_sched', ['tsanrt']), ('e3_free', ['tsan'])]
+               ('e1_bfs', ['asan']), ('e2_crypt', ['asan']), ('e2_tape', ['asan']), ('e2_fault', ['asan']), ('e2_detect', ['asan']), ('e2_strings', ['asan', 'dbg']), ('e4_residue', ['gcc-O2', 'gcc-O0']), ('e3_sched', ['tsanrt']), ('e3_free', ['tsan']), ('e2_pairs', ['plain'])]
 ENGINES = [
  {'name': 'E3', 'path': 'harness/e3_sched.c, harness/e3_scripts.h, harness/e3_free.c', 'serves_properties': ['C20'],
   'kind_free_text': 'stateless model checking of thread interleavings: the library is compiled with -fsanitize=thread and linked against the harness own __tsan_* callbacks; real pthreads under a baton scheduler, scheduling point at every access to the library writable static data, DFS over choice prefixes with a visited-state cache (complete, no preemption bound needed on the unchanged tree), race and serial-equivalence oracles; plus a separate free-running real-TSan pass'},
@@ -274,7 +276,7 @@ META = {
    text='All interleavings of four (thorough: five) multi-threaded harnesses (create/encode/decode/free; load/crypt/keygen/encode/decode_explicit/free; 3 threads with colliding language and coin; Chinese auto-detection + non-ASCII crypt against Korean create/encode/decode; thorough: 3 threads x full create/encode/decode/free cycles, 114 305 states) at the granularity of single accesses to the library writable static data are executed on the real library (2 555 + 4 164 + 30 688 + 3 114 states on the unchanged tree, each complete without a preemption bound). Every execution is checked for a write/any-access pair by different threads on a shared byte, for accesses to another thread seed memory, and for per-thread transcripts equal to a serial run. A free-running pass of the same bodies under real ThreadSanitizer keeps uninstrumented libc helpers visible.',
    note='Trusted: ' + TB + ', gcc -fsanitize=thread instrumentation, pthreads/semaphores. Sequential consistency; 2-3 threads; a state cap switches to iterative preemption bounding and is reported.'),
  'C16': dict(engine='E4', design_ref='DESIGN.md section 5 C16', technique='enumeration of every API function x exit path x compiler build on a painted stack with full residue scan; wipe-before-free checked on every free of the E1 state space',
-   text='Each of 60 (function, exit) cells - create OK/unsupported/memory, load OK/memory/5 format causes/checksum/unsupported, both decoders x OK/word count/language/checksum/memory/unsupported x 3 languages, multiple languages, encode in composing and plain languages, crypt with ASCII and non-ASCII password, keygen, store, getters, free - is executed on a dedicated 256 KiB stack painted 0xA5; afterwards the complete dead stack and the library writable sections are searched for the secret bytes, the encrypted secret, the mask, the password (raw, NFKD), every phrase word and adjacent word-index pairs (u16/u32/u64). At every free the block must be zero and covered by an earlier injected memzero. Repeated for each compiler build.',
+   text='Each of 63 (function, exit) cells - create OK/unsupported/memory, load OK/memory/5 format causes/checksum/unsupported, both decoders x OK/word count/language/checksum/memory/unsupported x 3 languages, multiple languages, encode in composing and plain languages, crypt with ASCII and non-ASCII password, keygen, store, getters, free - is executed on a dedicated 256 KiB stack painted 0xA5; afterwards the complete dead stack and the library writable sections are searched for the secret bytes, the encrypted secret, the mask, the password (raw, NFKD), every phrase word and adjacent word-index pairs (u16/u32/u64). At every free the block must be zero and covered by an earlier injected memzero. Repeated for each compiler build.',
    note='Trusted: ' + TB + ', makecontext. Sees what these compilers leave behind on x86-64.'),
  'C19': dict(engine='E5', design_ref='DESIGN.md section 5 C19', technique='configuration enumeration (both char signednesses) x the exhaustive E1/E2 scripts, transcript comparison',
    text='The phrase sweeps (all ten languages), the prefix/accent variants, the detection strings, the small-scope strings, the word-list sweep, the password masks and the E1 crypt profile are executed against two builds of the library (-fsigned-char, -funsigned-char). Each build must pass the oracles of those scripts, and the per-part transcripts (digest of every status and output, counts, outcome classes, E1 state/transition counts) must be equal; a violation inside one build carries the replayable case.',
